@@ -27,7 +27,8 @@ def setup_subject():
 
 EXOTIC_TYPES = ['XyzUnknown *', 'long long', 'unsigned long long', 'long double', 'va_list', 'FooBig', 'FooSkipped *', 'FooCallback',
                 'GList *', 'GSList *', 'GPtrArray *', 'GHashTable *', 'gint', 'const gchar *', 'FooRec *', 'GObject *', 'FooUnknownCb',
-                'DepThing *', 'FooHiddenAlias', 'gpointer', 'GDestroyNotify', 'GAsyncReadyCallback', 'FooSkippedAlias', 'gchar **']
+                'DepThing *', 'FooHiddenAlias', 'gpointer', 'GDestroyNotify', 'GAsyncReadyCallback', 'FooSkippedAlias', 'gchar **',
+                'FooCallback *', 'FooRec **', 'GObject **']       # pointer forms that become out/inout parameters
 
 
 def exotic_library(seed, idx):
@@ -55,6 +56,8 @@ def exotic_library(seed, idx):
                     # every combination of bindable and non-bindable key and value types
                     ann = '(element-type %s %s)' % (rng.choice(['utf8', 'gint', 'FooSkipped', 'XyzUnknown', 'FooBig', 'FooRec']),
                                                      rng.choice(['utf8', 'FooRec', 'FooSkipped', 'XyzUnknown', 'FooBig']))
+                elif sp in ('FooCallback *', 'FooRec **', 'GObject **') and rng.random() < 0.8:
+                    ann = rng.choice(['(out)', '(out)', '(inout)', '(out) (scope call)', '(out) (transfer none)'])
                 elif sp in ('GList *', 'GSList *', 'GPtrArray *') and rng.random() < 0.7:
                     ann = '(element-type %s)' % rng.choice(['utf8', 'FooRec', 'FooSkipped', 'XyzUnknown', 'FooBig'])
                 lines.append(' * @%s: %s%s' % (pn, (ann + ': ') if ann else '', 'a value'))
